@@ -31,7 +31,18 @@ func (c *notCond) string() string {
 	if strings.HasPrefix(next, "(") {
 		return fmt.Sprintf("not %s", next)
 	}
-	if _, ok := c.notC.(*notCond); ok {
+	// A group of a single condition prints as that condition, look at what is actually printed.
+	inner := c.notC
+	for {
+		if and, ok := inner.(*andCond); ok && len(and.conditions) == 1 {
+			inner = and.conditions[0]
+		} else if or, ok := inner.(*orCond); ok && len(or.conditions) == 1 {
+			inner = or.conditions[0]
+		} else {
+			break
+		}
+	}
+	if _, ok := inner.(*notCond); ok {
 		// A negated negation must be grouped, "not not" would be read as a single negation.
 		return fmt.Sprintf("not (%s)", next)
 	}
